@@ -77,28 +77,30 @@ Proof. exact scalar_pushes_one. Qed.
 
 (* The same on statements, loops included: on the executable VM model, started at its first instruction with an
    empty operand stack (of this frame), the code of any statement of the proved fragment (model/VarProg.v:
-   declarations, assignments, expression statements, conditionals and condition loops with break / continue, nested to
-   any depth; the statement itself not inside a loop) - run for however many iterations its loops take, whichever way
+   declarations - also inside blocks -, assignments, expression statements, conditionals and condition loops with
+   break / continue, nested to any depth; the statement itself not inside a loop) - run for however many iterations its loops take, whichever way
    they are left - either stops with an error or continues right after its last
    instruction with exactly one value on the stack if the statement is an expression, and with the stack empty again
    otherwise.  In particular the stack height after a loop does not depend on the number of iterations.
-   [vm_inv rho room s]: global slot i holds variable i; [run_stmt n rho st = Some r]: the statement ends. *)
+   [vm_inv rho scope s]: the visible variables rho live in the (distinct) global slots scope; [slots_ok k (nd st) scope s]:
+   those slots are below k, and the slots k .. the statement's declarations will claim exist;
+   [run_stmt n rho st = Some r]: the statement ends. *)
 Require Import RV.model.VarProg RV.proofs.VarVMProofs.
 Theorem C04_fragment_statements_balanced :
-  forall tabs c below frames free defers is_main n st rho room s base pre post top r,
-  vm_inv rho (ndecls (st :: nil) + room) s -> wf_stmt top false (List.length rho) st = true ->
-  code_instr c = (pre ++ strip (fst (stmt_code (List.length rho) base st)) ++ post)%list ->
-  (forall i kk, nth_error (snd (stmt_code (List.length rho) base st)) i = Some kk -> nth (base + i)%nat (code_consts c) (KInt 0%Z) = kk) ->
+  forall tabs c below frames free defers is_main n st rho scope k s base pre post r,
+  vm_inv rho scope s -> slots_ok k (nd st) scope s -> wf_stmt false (List.length rho) st = true ->
+  code_instr c = (pre ++ strip (fst (stmt_code k scope base st)) ++ post)%list ->
+  (forall i kk, nth_error (snd (stmt_code k scope base st)) i = Some kk -> nth (base + i)%nat (code_consts c) (KInt 0%Z) = kk) ->
   (below + sneed st <= MAXSTACK)%nat ->
   run_stmt n rho st = Some r ->
-  exists k s',
+  exists j s',
     match r with
     | inl (rho', v) =>
-        vm_inv rho' room s' /\
-        forall f, exec tabs (k + f)%nat c (List.length pre) nil below frames free defers is_main s =
-                  exec tabs f c (List.length pre + List.length (fst (stmt_code (List.length rho) base st)))%nat
+        vm_inv rho' (next_scope k scope st) s' /\
+        forall f, exec tabs (j + f)%nat c (List.length pre) nil below frames free defers is_main s =
+                  exec tabs f c (List.length pre + List.length (fst (stmt_code k scope base st)))%nat
                        (if is_expr_stmt st then (VMScalarProofs.inj v :: nil)%list else nil) below frames free defers is_main s'
-    | inr (StErr x) => forall f, exec tabs (k + f)%nat c (List.length pre) nil below frames free defers is_main s = (RErr (cls x) s', defers)
+    | inr (StErr x) => forall f, exec tabs (j + f)%nat c (List.length pre) nil below frames free defers is_main s = (RErr (cls x) s', defers)
     | inr _ => False
     end.
 Proof. exact vm_stmt_plain. Qed.
